@@ -11,7 +11,7 @@ package vm
 // the contract's self reference is a non-nil ContractRef, and the stack holds
 // at least minStack items (ground evaluation ties minStack to the entry).
 //@ pred top(scope, k) = scope.Stack.data[len(scope.Stack.data) - 1 - k]
-//@ pred opProtocol(interpreter, scope) = interpreter != nil && interpreter.evm != nil && interpreter.tracer != nil && interpreter.evm.StateDB != nil && scope != nil && scope.Stack != nil && scope.Memory != nil && scope.Contract != nil && scope.Contract.self != nil && interpreter.tracer.states != nil && interpreter.tracer.callTree != nil
+//@ pred opProtocol(interpreter, scope) = interpreter != nil && interpreter.evm != nil && interpreter.tracer != nil && interpreter.evm.StateDB != nil && interpreter.evm.Context.BlockNumber != nil && scope != nil && scope.Stack != nil && scope.Memory != nil && scope.Contract != nil && scope.Contract.self != nil && interpreter.tracer.states != nil && interpreter.tracer.callTree != nil
 
 //@ func vm.opValueChangeJournal(ctx, pc, interpreter, scope) (ret, err)
 //@   verify
@@ -418,4 +418,47 @@ package vm
 //@   witness s1: top(scope, 1)
 //@   witness-bytes mem 512: scope.Memory.store
 //@   witness readonly: interpreter.readOnly
+//@ end
+
+
+// ---------------------------------------------------------------------------
+// The interpreter loop and the instruction table (C07 / C10: the call-tree cursor, the call depth and the read-only
+// flag are restored by every instruction, hence by Run - the inductive hypothesis Call/create rely on).
+//
+// Fields that are assigned only while their object is being constructed (syntactic obligation immutable-fields):
+// a "modifies *" callee cannot change them, so pointers such as interpreter.evm.tracer.callTree stay put.
+//@ immutable vm.Call.Parent, vm.Call.Index, vm.Call.From, vm.Call.To, vm.Call.Value, vm.Call.Gas, vm.EVMInterpreter.evm, vm.EVMInterpreter.tracer, vm.EVM.tracer, vm.EVM.interpreter, vm.Tracer.callTree, vm.Tracer.states, vm.ScopeContext.Memory, vm.ScopeContext.Stack, vm.ScopeContext.Contract
+
+// sync.Pool is trusted: Get hands out an object nobody else holds.
+//@ func vm.newstack() (out)
+//@   trusted
+//@   kind fresh
+//@   ensures fresh-stack: out != nil && fresh(out) && len(out.data) == 0
+//@ end
+//@ func vm.returnStack(s)
+//@   trusted
+//@   modifies vm.Stack.data
+//@ end
+
+//@ fntype vm.memorySizeFunc
+//@   kind event
+//@   modifies nothing
+//@ end
+//@ fntype vm.gasFunc
+//@   kind mutating
+//@   modifies vm.EVM.callGasTemp
+//@ end
+
+// Every function that can sit in an instruction table (every module function with this signature) is verified
+// against this contract under these preconditions only.
+//@ fntype vm.executionFunc(self, ctx, pc, interpreter, scope) (ret, err)
+//@   kind mutating
+//@   implementations by-signature
+//@   requires protocol: pc != nil && interpreter != nil && interpreter.evm != nil && interpreter.evm.interpreter == interpreter && interpreter.evm.tracer != nil && interpreter.evm.tracer.callTree != nil && interpreter.evm.tracer.states != nil && interpreter.tracer == interpreter.evm.tracer && interpreter.evm.StateDB != nil && interpreter.evm.Context.BlockNumber != nil && scope != nil && scope.Stack != nil && scope.Memory != nil && scope.Contract != nil && scope.Contract.self != nil
+//@   assume package-constants: big0 != nil && !bigwide(big0) && !bigneg(big0)
+//@   ensures cursor-kept [C07 C10]: interpreter.evm.tracer.callTree.current == old(interpreter.evm.tracer.callTree.current)
+//@   ensures depth-kept [C07]: interpreter.evm.depth == old(interpreter.evm.depth)
+//@   ensures readonly-kept [C07]: interpreter.readOnly == old(interpreter.readOnly)
+//@   ensures tree-grows [C07]: interpreter.evm.tracer.callTree.count >= old(interpreter.evm.tracer.callTree.count)
+//@   modifies *
 //@ end
